@@ -40,6 +40,20 @@ theorem C05_escape_amp_only_from_entities (c : Nat) :
 /-- the escaper returns NULL (the value is printed as is) exactly when there is nothing to escape -/
 theorem C05_escape_null_iff (s : List Nat) : escapeC s = none ↔ s.dropWhile notEsc = [] := escapeC_none_iff s
 
+/-- P1 `scan_render` at the attribute level ("the built-in parser reads what the built-in exporter writes"): the importer's
+    `while (next_attr(...) >= 0)` loop over the attribute buffer of a tag returns exactly the (name, value) list that the
+    exporter's `new_prop` calls wrote (` name="escaped value"` each), for names over `[a-z_]` (the scanner's strspn set) and
+    NUL-free values; `fuel` only bounds the number of loop iterations -/
+theorem C05_scan_render_attrs (l : List (List Nat × List Nat)) (fuel : Nat) (hf : l.length < fuel)
+    (h : ∀ a ∈ l, (∀ c ∈ a.1, isAttrNameChar c = true) ∧ (∀ c ∈ a.2, c ≠ 0)) :
+    scanAttrs fuel (renderAttrs l) = l := scanAttrs_renderAttrs l fuel hf h
+
+/-- one attribute: `next_attr` returns its name and value and moves the attribute buffer to the next attribute -/
+theorem C05_next_attr_render (name val rest : List Nat) (hn : ∀ c ∈ name, isAttrNameChar c = true) (hv : ∀ c ∈ val, c ≠ 0) :
+    nextAttr (name ++ 61 :: 34 :: (escape val ++ 34 :: rest)) =
+      some (name, val, name.length + 2 + (escape val).length + 1 + (rest.takeWhile isBlank).length) :=
+  nextAttr_core name val rest hn hv
+
 /-! ### (b) base64 (userdata) -/
 
 /-- P0.  The encoder produces exactly BASE64_ENCODED_LENGTH(n) = 4*((n+2)/3) characters (plus the NUL: 4*((n+2)/3)+1 bytes) -/
@@ -56,12 +70,30 @@ theorem C05_base64_alphabet : ∀ i, i < 64 →
     B64.b64index (B64.b64char i) = some i ∧ B64.isspaceC (B64.b64char i) = false ∧ B64.b64char i ≠ B64.pad64 ∧ B64.b64char i ≠ 0 :=
   fun i h => ⟨B64.b64index_b64char i h, B64.b64char_not_space_pad i h⟩
 
-/-- PARTIAL (P0 `base64_roundtrip` is NOT closed at the level of the whole decoder state machine): the bit arithmetic of one
-    group is proved to invert — the three bytes assembled by the decoder's four states from the four 6-bit values the
-    encoder derives from `a b c` are `a b c`; the padded tails use the same formulas with `c = 0` / `b = c = 0`.
-    Missing: the induction over groups through `decGo` with the in-place `List.set` target (checked differentially:
-    every B64D case of engine `xmlrt` decodes the encoder's own output, byte for byte against C and model). -/
-theorem C05_base64_roundtrip_partial (a b c : Nat) (ha : a < 256) (hb : b < 256) (hc : c < 256) :
+/-- P0 `base64_roundtrip`.  Decoding the encoder's text (`hwloc_decode_from_base64` state machine, every length 0,1,2 mod 3, with
+    padding) into any target of at least `n + 1` bytes — the `length + 1` the XML importer allocates — returns `n`, leaves exactly
+    the original bytes in the first `n` cells and keeps the target's size -/
+theorem C05_base64_roundtrip (bs : List Nat) (tg : B64.Tgt) (hb : ∀ b ∈ bs, b < 256) (hs : bs.length + 1 ≤ tg.size) :
+    ∃ tg', B64.decode (B64.encText bs) (some tg) = ((bs.length : Int), some tg') ∧ tg'.size = tg.size ∧
+      tg'.cells.take bs.length = bs := B64.decode_encText bs tg hb hs
+
+/-- P0.  On a target of `4*((n+2)/3) + 1` bytes or more `hwloc_encode_to_base64` succeeds, returns `4*((n+2)/3)`, leaves the text
+    `encText bs` followed by a NUL at the start of the target and performs exactly `4*((n+2)/3) + 1` stores -/
+theorem C05_base64_encode (bs : List Nat) (t : B64.Tgt) (h0 : t.writes = []) (h : B64.encodedLength bs.length + 1 ≤ t.size) :
+    ∃ t', B64.encode bs t = ((B64.encodedLength bs.length : Int), t') ∧ t'.size = t.size ∧
+      t'.cells.take (B64.encodedLength bs.length + 1) = B64.encText bs ++ [0] ∧
+      t'.writes.length = B64.encodedLength bs.length + 1 := B64.encode_spec bs t h0 h
+
+/-- P0.  Encoder and decoder composed through their buffers, with the sizes topology-xml.c uses (`encoded_length + 1` for the
+    encoder, `length + 1` for the decoder): the callback receives the exported bytes -/
+theorem C05_base64_encode_decode (bs : List Nat) (hb : ∀ b ∈ bs, b < 256) (t tg : B64.Tgt) (h0 : t.writes = [])
+    (ht : B64.encodedLength bs.length + 1 ≤ t.size) (hs : bs.length + 1 ≤ tg.size) :
+    ∃ t' tg', B64.encode bs t = ((B64.encodedLength bs.length : Int), t') ∧
+      B64.decode (t'.cells.take (B64.encodedLength bs.length)) (some tg) = ((bs.length : Int), some tg') ∧
+      tg'.cells.take bs.length = bs := B64.decode_encode bs hb t tg h0 ht hs
+
+/-- the bit arithmetic of one group (used by `C05_base64_roundtrip`) -/
+theorem C05_base64_group (a b c : Nat) (ha : a < 256) (hb : b < 256) (hc : c < 256) :
     let x0 := a / 4; let x1 := (a % 4) * 16 + b / 16; let x2 := (b % 16) * 4 + c / 64; let x3 := c % 64
     x0 < 64 ∧ x1 < 64 ∧ x2 < 64 ∧ x3 < 64 ∧
     ((x0 * 4) ||| (x1 / 16)) = a ∧ (((x1 % 16) * 16) ||| (x2 / 4)) = b ∧ (((x2 % 4) * 64) ||| x3) = c :=
@@ -151,6 +183,8 @@ example : escape [97, 60, 98, 38, 99] = [97, 38, 108, 116, 59, 98, 38, 97, 109, 
 example : unescape (escape [97, 60, 98, 38, 99] ++ 34 :: [32, 120]) = some ([97, 60, 98, 38, 99], 12) := by decide
 example : nextAttr (str " name=\"x&quot;y\" v=\"1\"") = some (str "name", str "x\"y", 17) := by decide
 example : escapeC (str "plain") = none := by decide
+example : scanAttrs 5 (renderAttrs [(str "name", str "a<\"b\">&c"), (str "os_index", str "12"), (str "x", [])]) =
+    [(str "name", str "a<\"b\">&c"), (str "os_index", str "12"), (str "x", [])] := by decide
 -- base64: "Ma" -> "TWE=" -> "Ma" in a 3-byte target (length + 1), scratch byte cleared
 example : B64.encText [77, 97] = str "TWE=" := by decide
 example : (B64.decode (str "TWE=") (some { cells := [170, 170, 170] })).1 = 2 := by decide
